@@ -567,7 +567,7 @@ func (w *world) exec(s step) opResult {
 		if c != nil {
 			select { // the engine starts the controller in a goroutine: wait until it runs so that cancellation is observable
 			case <-c.started:
-			case <-time.After(10 * time.Second):
+			case <-time.After(30 * time.Second):
 			}
 		}
 		return opResult{r: errStr(err)}
@@ -780,7 +780,7 @@ func replay(tw *trace.Writer, id string, hist []step, sum *summary, probeBase in
 		select {
 		case at := <-p.at:
 			return at, true
-		case <-time.After(10 * time.Second):
+		case <-time.After(30 * time.Second):
 			return "", false
 		}
 	}
